@@ -329,7 +329,10 @@ def pins_bodysets(out):
     import hashlib
     for name, rel in [("fmacros", "src/macros.rs"), ("fmgmtapi", "src/management_api.rs"),
                       ("frbacapi", "src/rbac_api.rs"), ("femitter", "src/emitter.rs"), ("fconvert", "src/convert.rs"),
-                      ("fcachedenforcer", "src/cached_enforcer.rs"), ("fdefaultcache", "src/cache/default_cache.rs")]:
+                      ("fcachedenforcer", "src/cached_enforcer.rs"), ("fdefaultcache", "src/cache/default_cache.rs"),
+                      # small files a property is anchored in that no other pin covers
+                      ("frolemanager", "src/rbac/role_manager.rs"), ("ferror", "src/error.rs"), ("fadaptermod", "src/adapter/mod.rs"),
+                      ("fwatcher", "src/watcher.rs"), ("ffrontend", "src/frontend.rs")]:
         src = read(rel)
         # the test modules at the end of these files are not part of the pinned behaviour
         cut = src.find("#[cfg(test)]")
